@@ -990,6 +990,9 @@ class Interp:
     def ex_Set(self, n, env):
         xs = self.ex_Tuple(n, env)
         if ops.has_sym(xs):
+            for x in xs:
+                if hasattr(x, 'sym_set_of'):  # opt-in: the element's domain builds the set value (pyvc/symset.py)
+                    return x.sym_set_of(self.ctx, xs)
             raise Unsupported('set display of symbolic items')
         return set(xs)
 
